@@ -5,7 +5,7 @@ import sys
 
 ID = 'C15'
 COQ_PROPS = ['Props/C15.v']
-COQ_IMPORTS = ['Prims', 'CaseLib', 'Golomb', 'IntCodec', 'Search', 'Store']
+COQ_IMPORTS = ['Prims', 'CaseLib', 'Golomb', 'IntCodec', 'Search', 'Store', 'DtypeLen']
 RULE = ('all integer dtypes x lengths (valid, zero, negative, not whole bytes for endian types) x values at, just inside and just outside every range limit; floats with lengths other than 16/32/64; '
         'bool/8-bit-float lengths; tokens whose stated length disagrees with the value; invalid digits; windows beyond bytes/bitarray/BytesIO/file sources; through constructor keyword, name with length, '
         'token string, property assignment (target must stay unchanged), pack, Dtype.build and Array element assignment. non-trivial = a rejected case; distinct by arguments')
@@ -298,6 +298,22 @@ def coq_check(c, obs):
         if obs[0] == 'ok' and not isinstance(obs[1], str): return None
         dd = f'(mkdd "{name}" {signed} false {"[8; 16]" if whole else "[]"} {cbool(whole)} 1)'
         return (f"rbits_eqb (match get_dtype {dd} (Some {n}) with Err e => Err e | Ok _ => set_intlike {signed} {le} 0 {cz(v)} (Some {n}) end) {cres(o, cbits)}")
+    # the total classification of DtypeLen.v, run on the same calls: Dtype(kind, stated).build(value) / the token and keyword routes (the same function:
+    # C15_token_route, C15_keyword_route) for the digit, bytes and bits kinds; Dtype(name, n) acceptance for the float kinds
+    BUILD = "DtypeLen.build unit (fun _ _ _ => []) (fun _ _ => [])"
+    if c['op'] == 'token_len' and c['route'] in ('build', 'pack', 'token', 'kw_len') and not (c['kind'] == 'bytes' and c['route'] == 'kw_len') \
+            and not (c['val'] == '' and c['route'] == 'token') and (obs[0] == 'err' or isinstance(obs[1], str)):
+        k, val = c['kind'], c['val']
+        if obs[0] == 'err' and obs[1] != 'ValueError': return 'false'              # "every failure is ValueError"
+        dig = lambda ch, base: str(int(ch, base)) if ch.lower() in '0123456789abcdef'[:base] else '99'
+        V = {'hex': lambda: '[' + '; '.join(dig(ch, 16) for ch in val) + ']', 'oct': lambda: '[' + '; '.join(dig(ch, 8) for ch in val) + ']',
+             'bin': lambda: '[' + '; '.join(dig(ch, 2) for ch in val) + ']', 'bytes': lambda: '[' + '; '.join(str(b) for b in val.encode()) + ']', 'bits': lambda: cbits(val)}[k]()
+        K = {'hex': 'KHex', 'oct': 'KOct', 'bin': 'KBin', 'bytes': 'KBytes', 'bits': 'KBits'}[k]
+        return f"rbits_eqb ({BUILD} DtypeLen.{K} (Some {cz(c['stated'])}) {V if V != '[]' else '(@nil Z)' if k != 'bits' else '(@nil bool)'}) {cres(obs, cbits)}"
+    if c['op'] == 'badlen' and c['route'] in ('build', 'pack', 'token', 'kw_len') and c['name'] in ('float', 'floatbe', 'floatle', 'bfloat'):
+        K = {'float': 'KFloat', 'floatbe': 'KFloat', 'floatle': 'KFloatle', 'bfloat': 'KBfloat'}[c['name']]
+        if obs[0] == 'err' and obs[1] != 'ValueError': return 'false'
+        return f"Bool.eqb (match dtype_new DtypeLen.{K} (Some {cz(c['n'])}) with Ok _ => true | Err _ => false end) {cbool(obs[0] == 'ok')}"
     return None
 
 # ------------------------------------------------------------------------------------------------------------------------------------------
